@@ -12,6 +12,7 @@ import Driver.Config
 import Driver.Stable2
 import Driver.Factory
 import Driver.Incentive
+import Driver.Pair
 namespace Driver
 
 /-- the state of whichever engine the last `init <engine> …` line selected
@@ -29,6 +30,7 @@ inductive EngineState where
   | trio (s : WW.Trio.St)
   | registry (s : FacState)
   | incentive (d : Driver.Incentive.DSt)
+  | pair (s : WW.Pair.St)
 
 /-- `init <engine> k=v …` : select the engine and build its initial state; prints the first observation -/
 def initLine (ws : List String) : EngineState × String :=
@@ -78,6 +80,11 @@ def initLine (ws : List String) : EngineState × String :=
     match Driver.Incentive.initLine rest with
     | (some d, o) => (.incentive d, o)
     | (none, o) => (.none, o)
+  | "pair" :: rest =>
+    match Driver.PairD.initLine rest with
+    | some (some s) => (.pair s, "ok " ++ Driver.PairD.obs s)
+    | some none => (.none, "err")
+    | none => (.none, "bad-op")
   | _ => (.none, "bad-op")
 
 /-- an operation line for the currently selected engine -/
@@ -95,6 +102,7 @@ def opLine (st : EngineState) (ws : List String) : EngineState × String :=
   | .trio s => let (s', o) := Driver.Trio.opLine s ws; (.trio s', o)
   | .registry s => let (s', o) := facOp s ws; (.registry s', o)
   | .incentive d => let (d', o) := Driver.Incentive.opLine d ws; (.incentive d', o)
+  | .pair s => let (s', o) := Driver.PairD.opLine s ws; (.pair s', o)
 
 def stepLine (st : EngineState) (line : String) : EngineState × Option String :=
   match words line with
